@@ -123,7 +123,7 @@ def _encode_struct(
 ) -> None:
     struct = fcp.get_struct(name).unwrap()
 
-    for field in struct.fields:
+    for field in sorted(struct.fields, key=lambda field: field.field_id):
         _encode(buffer, fcp, field.type, data[field.name])
 
 
@@ -251,7 +251,7 @@ def _decode_struct(buffer: _Buffer, fcp: FcpV2, name: str) -> Dict[str, Any]:
     struct = fcp.get_struct(name).unwrap()
 
     data = {}
-    for field in struct.fields:
+    for field in sorted(struct.fields, key=lambda field: field.field_id):
         data[field.name] = _decode(buffer, fcp, field.type)
 
     return data
